@@ -167,7 +167,7 @@ use crate::extension::known_values;
 #[cfg(feature = "encrypt")]
 use bc_components::Decrypter;
 
-use anyhow::{bail, Result};
+use anyhow::Result;
 use bc_components::{SealedMessage, SymmetricKey, Nonce, Encrypter};
 use dcbor::prelude::*;
 
@@ -399,21 +399,16 @@ impl Envelope {
     /// recipient decryption process to find the content key that was encrypted for
     /// this particular recipient.
     #[cfg(feature = "encrypt")]
-    fn first_plaintext_in_sealed_messages(sealed_messages: &[SealedMessage], private_key: &dyn Decrypter) -> Result<Vec<u8>> {
+    fn plaintexts_in_sealed_messages(sealed_messages: &[SealedMessage], private_key: &dyn Decrypter) -> Vec<Vec<u8>> {
         let scheme = private_key.encapsulation_private_key().encapsulation_scheme();
-        for sealed_message in sealed_messages {
+        sealed_messages
+            .iter()
             // A message sealed under another encapsulation scheme is for
             // some other recipient. (Trying it anyway is not harmless: an
             // ML-KEM key panics on a ciphertext of a different ML-KEM level.)
-            if sealed_message.encapsulation_scheme() != scheme {
-                continue;
-            }
-            let a = sealed_message.decrypt(private_key).ok();
-            if let Some(plaintext) = a {
-                return Ok(plaintext);
-            }
-        }
-        bail!(EnvelopeError::UnknownRecipient)
+            .filter(|sealed_message| sealed_message.encapsulation_scheme() == scheme)
+            .filter_map(|sealed_message| sealed_message.decrypt(private_key).ok())
+            .collect()
     }
 
     /// Decrypts an envelope's subject using the recipient's private key.
@@ -462,9 +457,20 @@ impl Envelope {
     #[cfg(feature = "encrypt")]
     pub fn decrypt_subject_to_recipient(&self, recipient: &dyn Decrypter) -> Result<Self> {
         let sealed_messages = self.clone().recipients()?;
-        let content_key_data = Self::first_plaintext_in_sealed_messages(&sealed_messages, recipient)?;
-        let content_key = SymmetricKey::from_tagged_cbor_data(content_key_data)?;
-        self.decrypt_subject(&content_key)
+        // More than one sealed message may open with this key: an envelope
+        // that was decrypted and later encrypted to the same recipient again
+        // still carries the earlier `hasRecipient` assertion, which holds an
+        // old content key. The message that holds this envelope's content
+        // key is the one whose key decrypts the subject.
+        let mut result = Err(EnvelopeError::UnknownRecipient.into());
+        for content_key_data in Self::plaintexts_in_sealed_messages(&sealed_messages, recipient) {
+            let content_key = SymmetricKey::from_tagged_cbor_data(content_key_data)?;
+            result = self.decrypt_subject(&content_key);
+            if result.is_ok() {
+                break;
+            }
+        }
+        result
     }
 
     /// Creates a `hasRecipient: SealedMessage` assertion envelope.
